@@ -114,7 +114,7 @@ def strategy(tier):
         'outcomes': st.lists(st.sampled_from(['fail', 'fail', 'refuse',
                                               'drop', 'drop_after',
                                               'drop_inverted', 'ok',
-                                              'kicked']),
+                                              'kicked', 'closed']),
                              max_size=8),
         'abort_at': st.one_of(st.none(), st.none(), st.integers(1, 6)),
         'second_loss': st.booleans(), 'manual': st.booleans(),
@@ -303,23 +303,31 @@ def _run(case, h):
                 h.lose()
                 h.settle()
             return
-        if cur['outcome'] == 'kicked':
+        if cur['outcome'] in ('kicked', 'closed'):
             if cur.get('refused'):
                 return
             cur['refused'] = True
             frs = [f for n in pend for f in wire.frames(
                 wire.CONNECT, n, None, {'sid': 'sid-%d-%s' % (h.n_conn, n)})]
-            frs += wire.frames(wire.DISCONNECT, pend[-1])
+            closed = cur['outcome'] == 'closed'
+            if not closed:
+                frs += wire.frames(wire.DISCONNECT, pend[-1])
             if aio:
                 from engineio import packet as ep
                 for f in frs:
                     h.loop.spawn(h.eio._receive_packet(
                         ep.Packet(ep.MESSAGE, f)))
+                if closed:
+                    # ... and closes the connection behind the acceptance
+                    h.loop.spawn(h.eio._receive_packet(ep.Packet(ep.CLOSE)))
                 h.loop.run_until_idle()
             else:
                 for f in frs:
                     h.deliver(f)
-            labels['server_disconnect_during_attempt'] = True
+                if closed:
+                    h.server_close()
+            labels['server_close_during_attempt' if closed else
+                   'server_disconnect_during_attempt'] = True
             return
         if cur['outcome'] == 'drop_after':
             if cur.get('refused'):
@@ -458,7 +466,7 @@ def _run(case, h):
                 if h.eio.state == 'connected' and any(
                         n not in sio.namespaces for n in nss) and \
                         not (cur['outcome'] in ('refuse', 'drop',
-                                                'drop_after', 'kicked',
+                                                'drop_after', 'kicked', 'closed',
                                                 'drop_inverted') and
                              cur.get('refused')):
                     answers()
@@ -496,7 +504,7 @@ def _run(case, h):
             out = outcomes[k - 1] if k - 1 < len(outcomes) else 'fail'
             if out == 'ok':
                 return k, 'success'
-            if out == 'kicked':
+            if out in ('kicked', 'closed'):
                 # the server disconnected the client: no further attempt
                 return k, 'kicked'
             if case['attempts'] and k >= case['attempts']:
